@@ -233,6 +233,15 @@ def build_world(spec, work):
         model = gen.build_from_shape(forest, s['n_levels'], rng)
     if s.get('nasty_names'):
         model = rename_nodes(model, rng, gen.CSV_NASTY_NAMES)
+    if s.get('childless_node') and len(model.hierarchy) > 1:
+        # validator-accepted oddity: an internal node without children
+        li = int(rng.integers(0, len(model.hierarchy) - 1))
+        lv = model.hierarchy[li]
+        model.nodes[lv].append('EMPTY_NODE')
+        if li > 0:
+            up = model.hierarchy[li - 1]
+            model.parent[lv]['EMPTY_NODE'] = model.nodes[up][
+                int(rng.integers(len(model.nodes[up])))]
     w.model = model
 
     # genes
